@@ -32,6 +32,8 @@ impl<A: Service> Addr<A> {
     pub async fn register(self) -> crate::error::Result<(Self, Option<Self>)> {
         let key = TypeId::of::<A>();
         let mut registry = REGISTRY.write().await;
+        #[cfg(feature = "verif")]
+        crate::verif::sync_point().await;
 
         log::trace!("registering service {}", std::any::type_name::<A>());
 
@@ -64,6 +66,8 @@ impl<A: Service> Addr<A> {
         let key = TypeId::of::<A>();
         log::trace!("replacing service {}", std::any::type_name::<A>());
         let mut registry = REGISTRY.write().await;
+        #[cfg(feature = "verif")]
+        crate::verif::sync_point().await;
         registry
             .insert(key, Box::new(self.clone()))
             .and_then(|addr| addr.downcast::<Addr<A>>().ok())
@@ -75,6 +79,8 @@ impl<A: Service> Addr<A> {
         let key = TypeId::of::<A>();
         log::trace!("unregistering service {}", std::any::type_name::<A>());
         let mut registry = REGISTRY.write().await;
+        #[cfg(feature = "verif")]
+        crate::verif::sync_point().await;
         registry
             .remove(&key)
             .and_then(|addr| addr.downcast::<Addr<A>>().ok())
@@ -101,6 +107,8 @@ pub trait Service: Actor + Default {
         async {
             let key = TypeId::of::<Self>();
             let registry = REGISTRY.read().await;
+            #[cfg(feature = "verif")]
+            crate::verif::sync_point().await;
             registry
                 .get(&key)
                 .and_then(|addr| addr.downcast_ref::<Addr<Self>>().map(Addr::running))
@@ -150,6 +158,8 @@ pub trait Service<S: Spawner<Self>>: Actor + Default {
             let key = TypeId::of::<Self>();
 
             let mut registry = REGISTRY.write().await;
+            #[cfg(feature = "verif")]
+            crate::verif::sync_point().await;
 
             if let Some(addr) = registry
                 .get_mut(&key)
@@ -186,6 +196,8 @@ pub(crate) trait SpawnableService<S: Spawner<Self>>: Service {
             let key = TypeId::of::<Self>();
 
             let mut registry = REGISTRY.write().await; // this is the only reason for the async block
+            #[cfg(feature = "verif")]
+            crate::verif::sync_point().await;
 
             if let Some(addr) = registry
                 .get_mut(&key)
